@@ -220,8 +220,11 @@ def run(ctx):
     ctx.under_contract("pyins.kalman.correct")
     ctx.trust("scipy.linalg.cholesky / cho_solve / solve_triangular contracts (assumed; exercised by the float stand-in)", "z3 (conformability)",
               "free-algebra rewriting to normal form (pvx/words.py)")
-    ctx.assume("PSD lemmas: X P X^T is PSD for PSD P; sums of PSD are PSD; PSD + PD is PD", "continuity of the Bayes update on the PSD cone (singular P)",
-               "additivity of the information form => order independence of independent blocks (lemma over the discharged identity)")
+    ctx.assume("continuity of the Bayes update on the PSD cone (singular P)",
+               "additivity of the information form => order independence of independent blocks (lemma over the discharged identity; commutation of the sum: Pvx.information_additive)")
+    from props import helpers as _helpers_psd
+    ctx.guard(_helpers_psd.lean_psd, ctx, "C07", ['Pvx.congr_psd', 'Pvx.sum_psd', 'Pvx.innovation_cov_pd', 'Pvx.pd_symmetric', 'Pvx.joseph_psd',
+                                                   'Pvx.joseph_symmetric', 'Pvx.never_larger', 'Pvx.information_additive'])
     ctx.guard(_algebra, ctx, py)
     ctx.guard(_standin, ctx, py)
 
